@@ -119,6 +119,11 @@ func c12Case(r *evid.Run, tier string, idx int, g *rng.R) {
 		// every fourth case runs the evaluator on the independent Cursor implementation (R-ref)
 		w, err = newRefWorld(d)
 		r.Count("cases_on_reference_cursor", 1)
+		if err == nil && idx%8 == 7 {
+			// identity of nodes is Pos(): this view hands out a fresh cursor value on every access
+			w.lazy = true
+			r.Count("cases_on_lazily_allocated_cursors", 1)
+		}
 	}
 	if err != nil {
 		r.Inconclusive("store tree mismatch: " + err.Error())
@@ -229,5 +234,34 @@ func c12Case(r *evid.Run, tier string, idx int, g *rng.R) {
 				}
 			}
 		}
+	}
+	// nodes of a second document in the same query: lang() and the name functions answer for the
+	// node they are asked about, whatever tree it belongs to
+	if idx%3 == 1 && !w.ref && idx%150 != 17 {
+		tags := []string{"en", "fr", "de", "zh", "en-GB", "EN", "x"}
+		w.env.Vars, w.env.Funcs = nil, nil
+		foreignSection(r, "two-documents", idx, g, w, o, func(g *rng.R, w *world) xast.Expr {
+			l := xast.Lit{S: rng.Pick(g, tags)}
+			switch g.Intn(3) {
+			case 0:
+				return xast.Fn("count", xast.Abs(xast.DS(), xast.S("child", xast.AnyT(), xast.Fn("lang", l))))
+			case 1:
+				return xast.Fn("name", xast.Abs(xast.DS(), xast.S("child", xast.AnyT(), xast.N(float64(g.Range(1, 3))))))
+			}
+			return xast.Fn("count", xast.Abs(xast.DS(), xast.S("child", xast.NodeT(), xast.Fn("lang", l))))
+		}, func(g *rng.R, wB *world, ov xast.Expr) xast.Expr {
+			l := xast.Lit{S: rng.Pick(g, tags)}
+			switch g.Intn(5) {
+			case 0:
+				return xast.Fn("count", xast.Path{Head: ov, HPred: []xast.Expr{xast.Fn("lang", l)}})
+			case 1:
+				return xast.Fn("count", xast.Path{Head: ov, Steps: []xast.Step{xast.DS(), xast.S("child", xast.AnyT(), xast.Fn("lang", l))}})
+			case 2:
+				return xast.Fn("name", ov)
+			case 3:
+				return xast.Fn("local-name", xast.Path{Head: ov, HPred: []xast.Expr{xast.Fn("last")}})
+			}
+			return xast.Fn("count", xast.Path{Head: ov, Steps: []xast.Step{xast.S("descendant-or-self", xast.NodeT(), xast.Fn("not", xast.Fn("lang", l)))}})
+		})
 	}
 }
